@@ -346,4 +346,6 @@ def drive_and_validate(pid, drv, cases, out, module, env=None, xmx='3g', xss=Non
     for (j, rc, o) in crashes:
         p = save_replay(pid, 'crash-%s.log' % os.path.basename(j[0]), o)
         vio.append(('driver aborted / sanitizer report (rc=%d) on %s' % (rc, j[0]), p))
+    if not crashes and nexec != len(cases):
+        raise Infra('%s judged %d executions but %d cases were run: the traces do not have the shape the trace specification expects' % (module, nexec, len(cases)))
     return vio, nexec, known, results
